@@ -1,10 +1,11 @@
 (* C16 — tree walks always terminate and respect filesystem boundaries.
-   Statements only; proofs in Proofs/WalkTerm.v.  About the verification walk; the update and
-   unregistered-Manifest walks use the same bookkeeping and are covered by correspondence. *)
+   Statements only; proofs in Proofs/WalkTerm.v (verification walk), Proofs/UnregTerm.v (scan for
+   unregistered Manifests) and Proofs/UpdateTerm.v (update / create walk): all three walks of the model
+   terminate by themselves on any finite inode graph. *)
 From Coq Require Import List NArith ZArith Arith Lia.
 From Gemato Require Import Py.PyStr Py.PyPath Gen.Tables Model.Entry Model.Text Model.OpenPGP Model.Hash Model.FS
-  Model.Verify Model.Loader.
-From Gemato Require Import Proofs.WalkTerm.
+  Model.Verify Model.Loader Model.Update.
+From Gemato Require Import Proofs.WalkTerm Proofs.UnregTerm Proofs.UpdateTerm.
 Import ListNotations.
 Open Scope N_scope.
 
@@ -19,6 +20,24 @@ Theorem C16_terminates : forall (L : hashlib) w, wf_world w ->
   walk_verify L f1 w c X rel [] ed ret log = walk_verify L f2 w c X rel [] ed ret log.
 Proof. exact walk_terminates. Qed.
 Print Assumptions C16_terminates.
+
+(* the same for the scan for unregistered Manifests that every update / create runs first ... *)
+Theorem C16_unregistered_walk_terminates : forall (L : hashlib) decompress pgp_verify w, wf_world w ->
+  forall f1 f2 l X rel ed found,
+  X <> [] -> forallb (N.eqb sl) X = false ->
+  (D w + 2 <= f1)%nat -> (D w + 2 <= f2)%nat ->
+  walk_unreg L decompress pgp_verify f1 w l X rel [] ed found = walk_unreg L decompress pgp_verify f2 w l X rel [] ed found.
+Proof. exact unreg_walk_terminates. Qed.
+Print Assumptions C16_unregistered_walk_terminates.
+
+(* ... and for the update / create walk itself (started with an empty identity map, as update_entries_for_directory does) *)
+Theorem C16_update_walk_terminates : forall (L : hashlib) decompress pgp_verify w, wf_world w ->
+  forall f1 f2 X rel nm hashes lm s,
+  X <> [] -> forallb (N.eqb sl) X = false -> us_ids s = [] ->
+  (D w + 2 <= f1)%nat -> (D w + 2 <= f2)%nat ->
+  walk_update L decompress pgp_verify f1 w X rel nm hashes lm s = walk_update L decompress pgp_verify f2 w X rel nm hashes lm s.
+Proof. exact update_walk_terminates. Qed.
+Print Assumptions C16_update_walk_terminates.
 
 (* the fuel the model actually uses, |nodes| + 3, is enough *)
 Theorem C16_model_fuel_sufficient : forall w, (D w + 2 <= nodes_fuel w)%nat.
